@@ -42,6 +42,7 @@ func H_C09_fail() {
 	timing := vfParam("timing", 0)
 	prefix := vfParam("prefix", 0)
 	wfail := vfParam("wfail", 0)
+	eof := vfParam("eof", 0) // the read failure is io.EOF (1) or wraps io.EOF (2): the peer closed the connection
 	conn := newZZConn()
 	conn.wch = make(chan *goatorepo.Rpc, 8)
 	rm := NewRpcMultiplexer(conn)
@@ -75,7 +76,14 @@ func H_C09_fail() {
 			conn.failWrite = errors.New("write side down")
 			conn.mu.vfUnlock()
 		}
-		conn.rerr <- errors.New("connection reset")
+		switch eof {
+		case 1:
+			conn.rerr <- io.EOF
+		case 2:
+			conn.rerr <- &zzWrapErr{io.EOF}
+		default:
+			conn.rerr <- errors.New("connection reset")
+		}
 	}()
 	done := false
 	var uBody *goatorepo.Body
@@ -176,3 +184,8 @@ func H_C09_fail() {
 		vfAssert(sendErr != nil, "send-after-end-fails")
 	})
 }
+
+type zzWrapErr struct{ err error }
+
+func (w *zzWrapErr) Error() string { return "read: " + w.err.Error() }
+func (w *zzWrapErr) Unwrap() error { return w.err }
